@@ -75,6 +75,7 @@ def run(ck, F):
     for r in (K.R_diag, K.R_cover, K.R_lex):
         ck.rules[r]['floor'] = 18
     ck.rules[K.R_atom]['floor'] = 2
+    ck.rules[K.R_guard]['floor'] = 20
     ck.extra['tables'] = sorted(tables)
     rec = F.need_rec(TF)
     declared = sorted(fl['name'] for fl in rec['fields'] if fl['t'].startswith('ipr::util::rb_tree::container<'))
